@@ -76,4 +76,11 @@ Definition loracle (c : lcase) : list nat :=
       end
   end.
 
-Definition lverdict (c : lcase) : list nat := lcorrespondence c ++ loracle c.
+(* 211: the file lies in the domain of the theorem parse_render_lst *)
+Definition lguards (c : lcase) : list nat :=
+  match lc_written c with
+  | Some (v, bs) => tag (negb (version_ok v && forallb wblock_ok bs)) 211
+  | None => []
+  end.
+
+Definition lverdict (c : lcase) : list nat := lcorrespondence c ++ loracle c ++ lguards c.
